@@ -452,7 +452,10 @@ fn check_pipeline(case: &Case) -> CaseResult {
                 forged_n += 1;
             }
         }
+        // Release the pipeline thread and the SQLite connections of this case explicitly (thousands
+        // of cases per run would otherwise pile up file descriptors until they are reaped).
         drop(pipeline);
+        store.pool().close().await;
         Ok(CaseOk::nontrivial(nontrivial)
             .label_if(forged_n > 0, "has_forged")
             .label_if(!tainted.is_empty(), "stale_prune_was_accepted")
@@ -712,7 +715,10 @@ pub fn run(mut ctx: Ctx) -> ! {
             "pipeline_histories",
             "2-3 victims x 1-2 topics pre-filled with 0-6 operations each, then 1-12 operations (forged signature claiming a victim with/without prune flag at seq 0/mid/height/above/u32::MAX, stale or link-invalid validly signed ones, honest prunes with gaps, honest plain, duplicates) through Pipeline::process; every (author, log) compared after every step; non-trivial = a *failing* prune-flagged operation aimed at a non-empty log",
             400,
-            15_000,
+            // Every Pipeline owns a thread with its own runtime which by design never terminates
+            // ("processors never cease operation"): ~3 file descriptors per case stay open until
+            // the process exits, so the case count is bounded by RLIMIT_NOFILE (20 000 here).
+            4_000,
         )
         .min_nontrivial(0.3),
         || {
